@@ -38,9 +38,14 @@ Len4(S) == IF S < 100 THEN 4 * S + 60 ELSE IF S < 20000 THEN 3 * S + 200 ELSE 2 
 Max2(a, b) == IF a > b THEN a ELSE b
 
 (* access i touches a fresh key, except every 5th and 7th access which go back to an older key *)
+(* ... and, in the cases with purges, every 11th step purges a recent key (negative number) and every 13th a key
+   that was never used *)
 KeyAt(i) == IF i % 5 = 0 THEN ((i * 7) % i) + (i \div 3) + 1
             ELSE IF i % 7 = 0 THEN i - 3
             ELSE i
+KeyAtP(i) == IF i % 11 = 0 THEN 0 - (i - 2)
+             ELSE IF i % 13 = 0 THEN 0 - (i + 1000000)
+             ELSE KeyAt(i)
 
 VARIABLES l, j, lists, bad, tot
 
@@ -55,7 +60,10 @@ EmitInit ==
          rels == [i \in 1..Len(R) |-> [via |-> "reload", size |-> R[i][1], size2 |-> R[i][2], bound |-> Max2(R[i][1], R[i][2]),
                                        light |-> FALSE,
                                        keys |-> [n \in 1..Len4(Max2(R[i][1], R[i][2])) |-> KeyAt(n)]]]
-     IN ndJsonSerialize(IOEnv.OUT, news \o rels)
+         P == SetToSeq({s \in Sz : s <= 130 \/ s \in {1023, 1024, 1025}})
+         purges == [i \in 1..Len(P) |-> [via |-> "new", size |-> P[i], size2 |-> P[i], bound |-> P[i], light |-> FALSE,
+                                         keys |-> [n \in 1..Len4(P[i]) |-> KeyAtP(n)]]]
+     IN ndJsonSerialize(IOEnv.OUT, news \o rels \o purges)
 EmitNext == FALSE /\ UNCHANGED <<l, j, lists, bad, tot>>
 
 (* observation: [case |-> [size, keys], nshards, steps |-> Seq([key, shard, created, evicted: Seq(key), resident])] *)
@@ -78,6 +86,14 @@ CheckInit == l = 1 /\ j = 0 /\ bad = 0 /\ tot = 0 /\ lists = IF Len(Obs) = 0 THE
 (* large sizes: only the bound is checked (the recency lists would make every TLC state huge) *)
 StepOK(o, st, ls0, tot0) ==
   IF o.case.light THEN [ls |-> ls0, tot |-> st.resident, ok |-> st.resident <= o.case.bound] ELSE
+  IF st.purge THEN
+     LET z == st.shard + 1
+         was == InSeq(ls0[z], st.key)
+         total == tot0 - (IF was THEN 1 ELSE 0)
+     IN [ls |-> [ls0 EXCEPT ![z] = Without(@, st.key)], tot |-> total,
+         (* a purge removes its key and nothing else (the LRU reports the removed key through its eviction callback) *)
+         ok |-> st.evicted \in {<<>>, <<st.key>>} /\ (st.evicted = <<st.key>> => was) /\ total = st.resident /\ st.resident <= o.case.bound]
+  ELSE
   LET z == st.shard + 1
       was == InSeq(ls0[z], st.key)
       ls1 == [ls0 EXCEPT ![z] = <<st.key>> \o Without(@, st.key)]
